@@ -37,7 +37,7 @@ func init() {
 		},
 		Run:            run,
 		Finish:         finish,
-		MinEvaluations: map[string]int{"quick": 500000, "thorough": 10000000},
+		MinEvaluations: map[string]int{"quick": 600000, "thorough": 10000000},
 		MinNontrivial:  map[string]int{"quick": 150000, "thorough": 4000000},
 		RequiredObs: []string{"calls:dense", "calls:sparse", "cert:rotation", "cert:K5", "cert:K3,3", "cert:edge-bound",
 			"classes_n=8", "family:stacked", "family:flipped", "family:plane", "family:outerplanar", "family:grid", "family:blocktree",
@@ -447,7 +447,7 @@ func (m *mon) classSweeps() {
 		chunked(8, 200, 48, 0, "identity, reversal, 48 seeded relabellings (dense/sparse alternating)")
 	} else {
 		chunked(7, 60, 60, both, "identity, reversal, 60 seeded relabellings x dense+sparse")
-		chunked(8, 250, 10, both, "identity, reversal, 10 seeded relabellings x dense+sparse")
+		chunked(8, 250, 16, both, "identity, reversal, 16 seeded relabellings x dense+sparse")
 	}
 	if !c.Thorough() {
 		return
@@ -567,7 +567,7 @@ func sizeFor(c *engine.Ctx, r *engine.Rng, i int) int {
 		if c.Thorough() {
 			return r.Range(64, 140)
 		}
-		if i%64 == 7 { // a few big ones in the quick tier as well
+		if i%32 == 7 { // a few big ones in the quick tier as well
 			return r.Range(100, 200)
 		}
 		return r.Range(30, 64)
@@ -577,7 +577,7 @@ func sizeFor(c *engine.Ctx, r *engine.Rng, i int) int {
 func (m *mon) planarFamilies() {
 	c := m.c
 	gens := planarGens()
-	cases := c.Pick(2400, 24000)
+	cases := c.Pick(3600, 24000)
 	per := 12
 	for u := 0; u*per < cases; u++ {
 		u := u
@@ -632,7 +632,7 @@ func (m *mon) planarFamilies() {
 func (m *mon) nonplanarFamilies() {
 	c := m.c
 	gens := planarGens()
-	cases := c.Pick(2400, 24000)
+	cases := c.Pick(3600, 24000)
 	per := 12
 	modes := []string{"alone", "cut vertex", "shared edge", "links", "branch vertices inside", "random overlay"}
 	for u := 0; u*per < cases; u++ {
@@ -871,7 +871,7 @@ func (m *mon) referenceJudged() {
 	}
 	// random sparse graphs and near-triangulations
 	gens := planarGens()
-	cases := c.Pick(3000, 30000)
+	cases := c.Pick(4500, 30000)
 	per = 12
 	for u := 0; u*per < cases; u++ {
 		u := u
